@@ -480,7 +480,11 @@ impl Sample for Complex {
     }
     fn parse(data: &[u8]) -> Result<Self::Type> {
         if data.len() != Self::size() {
-            panic!("TODO: Complex is wrong size");
+            return Err(Error::msg(format!(
+                "parsing a sample from {} bytes, expected {}",
+                data.len(),
+                Self::size()
+            )));
         }
         let i = Float::from_le_bytes(data[0..Self::size() / 2].try_into()?);
         let q = Float::from_le_bytes(data[Self::size() / 2..].try_into()?);
@@ -501,7 +505,11 @@ impl Sample for Float {
     }
     fn parse(data: &[u8]) -> Result<Self::Type> {
         if data.len() != Self::size() {
-            panic!("TODO: Float is wrong size");
+            return Err(Error::msg(format!(
+                "parsing a sample from {} bytes, expected {}",
+                data.len(),
+                Self::size()
+            )));
         }
         Ok(Float::from_le_bytes(data[0..Self::size()].try_into()?))
     }
@@ -517,7 +525,11 @@ impl Sample for u8 {
     }
     fn parse(data: &[u8]) -> Result<Self::Type> {
         if data.len() != Self::size() {
-            panic!("TODO: u8 is wrong size");
+            return Err(Error::msg(format!(
+                "parsing a sample from {} bytes, expected {}",
+                data.len(),
+                Self::size()
+            )));
         }
         Ok(data[0])
     }
@@ -533,7 +545,11 @@ impl Sample for u32 {
     }
     fn parse(data: &[u8]) -> Result<Self::Type> {
         if data.len() != Self::size() {
-            panic!("TODO: Float is wrong size");
+            return Err(Error::msg(format!(
+                "parsing a sample from {} bytes, expected {}",
+                data.len(),
+                Self::size()
+            )));
         }
         Ok(u32::from_le_bytes(data[0..Self::size()].try_into()?))
     }
@@ -549,7 +565,11 @@ impl Sample for i32 {
     }
     fn parse(data: &[u8]) -> Result<Self::Type> {
         if data.len() != Self::size() {
-            panic!("TODO: Float is wrong size");
+            return Err(Error::msg(format!(
+                "parsing a sample from {} bytes, expected {}",
+                data.len(),
+                Self::size()
+            )));
         }
         Ok(i32::from_le_bytes(data[0..Self::size()].try_into()?))
     }
